@@ -19,8 +19,10 @@ mv $tmp/with/$dir/zz_seed_demo_test.go $tmp/demo.go
 suite=$(cd $tmp/with && go test -vet=off -count=1 ./fix/... ./session/... ./utils/... ./storages/... . ./tests/... 2>&1 | grep -v "no test files" | tail -8)
 suite_ok=$(echo "$suite" | grep -c "^FAIL\|^--- FAIL\|panic:")
 cp $tmp/demo.go $tmp/with/$dir/zz_seed_demo_test.go
-dw=$(cd $tmp/with && go test -vet=off -count=1 -timeout 120s ./$dir 2>&1 | tail -5)
-dwo=$(cd $tmp/without && go test -vet=off -count=1 -timeout 120s ./$dir 2>&1 | tail -3)
+# only the demonstration's own tests: the tests package has a helper that panics when the binary runs longer than 10 s
+names=$(grep -o '^func Test[A-Za-z0-9_]*' $sd/demo_test.go | sed 's/^func //' | paste -sd'|')
+dw=$(cd $tmp/with && go test -vet=off -count=1 -timeout 300s -run "^($names)\$" ./$dir 2>&1 | tail -5)
+dwo=$(cd $tmp/without && go test -vet=off -count=1 -timeout 300s -run "^($names)\$" ./$dir 2>&1 | tail -3)
 with_fail=$(echo "$dw" | grep -c "^FAIL\|^--- FAIL\|panic:")
 without_ok=$(echo "$dwo" | grep -c "^ok")
 cd /verif
